@@ -100,8 +100,7 @@ impl<'src: 'run, 'run> RecipeResolver<'src, 'run> {
         // dependency already resolved
         dependencies.push(Rc::clone(resolved));
       } else if stack.contains(&name) {
-        let first = stack[0];
-        stack.push(first);
+        stack.push(name);
         return Err(
           dependency.recipe.error(CircularRecipeDependency {
             recipe: recipe.name(),
